@@ -396,7 +396,11 @@ impl GlyphDeltas {
     // buffers, and that can be improved at the cost of a bit more complexity
     // <https://github.com/googlefonts/fontations/issues/635>
     fn pick_best_point_number_repr(deltas: &[GlyphDelta]) -> PackedPointNumbers {
-        if deltas.iter().all(|d| d.required) {
+        // A tuple in which no delta is required cannot be stored sparsely: a packed point
+        // count of zero means "all points", and readers then expect one delta per point
+        // (skrifa fails on the empty delta stream and drops the deltas of every other
+        // tuple of the glyph with it). Store such a tuple densely.
+        if deltas.iter().all(|d| d.required) || !deltas.iter().any(|d| d.required) {
             return PackedPointNumbers::All;
         }
 
